@@ -192,6 +192,7 @@ func (sc *Scheduler) Schedule(ctx context.Context, g *ExecutionGraph, done chan 
 								"error", execErr,
 								"retry", node.getRetryCount(),
 							)
+							verifPoint("worker.retrywait", node)
 							time.Sleep(node.data.Step.RetryPolicy.Interval)
 							verifPoint("worker.retrywake", node)
 							node.setRetriedAt(time.Now())
